@@ -6,7 +6,7 @@
   the environment picks every API call on every object, every packet arrival at every
   forwarder, every TCP-side change; ghost logs `acc` = datagrams `incoming_packet` accepted,
   `out` = datagrams that left a queue, flag `true` = handed to a reader, `false` = discarded by
-  close / re-open / destroy). Invariants: `RInv` (registries and forwarders,
+  close / re-open / destroy). Invariants: `RegInv` (registries and forwarders,
   Lemmas/NetRun.lean) and `DInv` (data path, Lemmas/UdpData.lean).
 
   System-level statements quantify over ALL label sequences `ls` from `NS.init c` for a
@@ -166,7 +166,7 @@ theorem C08_drained_reader_loses_nothing (c : NetCfg) (hc : c.WF) (ls : List NLb
     (hu : ((NS.init c).run ls).n.udp? name = some u) (hq : u.queue = []) (hs : p.size ≤ 262144) :
     (((NS.init c).run ls).step (.deliver f p)).acc name = ((NS.init c).run ls).acc name ++ [p] := by
   have hd := (DInv.run c hc ls).dok hu
-  have ho := ((RInv.run c hc ls).deliver_open hf hu).1
+  have ho := ((RegInv.run c hc ls).deliver_open hf hu).1
   have hacc := UdpSock.incoming_accepts_drained p hd ho hq hs
   rw [(NS.step_deliver_some _ f p name u hf hu).2.1]
   simp [hacc]
@@ -458,7 +458,7 @@ theorem C08_send_route (c : NetCfg) (hc : c.WF) (ls : List NLbl) (name : String)
           ∧ (((NS.init c).run ls).n.setUdp name { u0 with waitSendH := none }).udpRoute u0.bound dst
               = some (c.outRoute u0.bound.addr ++ c.netRoute u0.bound.addr dst.addr
                         ++ c.inRoute dst.addr ++ [fwdHop f]) := by
-  have hr := RInv.run c hc ls
+  have hr := RegInv.run c hc ls
   have hcfg : ((NS.init c).run ls).n.cfg = c := NS.run_cfg _ ls
   have tgtSock : ∀ tgt, ((NS.init c).run ls).n.reg.udp.lookup dst = some tgt →
       ∃ t f, ((NS.init c).run ls).n.udp? tgt = some t ∧ t.isOpen = true ∧ t.bound = dst ∧ t.fwd = some f
@@ -597,7 +597,7 @@ theorem C08_close_discards (c : NetCfg) (hc : c.WF) (ls : List NLbl) (name : Str
     ∧ ∀ f, u.fwd = some f → ∀ (ls' : List NLbl) (p : Pkt),
         ((((NS.init c).run ls).step l).run ls').n.fwdTarget f = none
         ∧ ((((NS.init c).run ls).step l).run ls').step (.deliver f p) = (((NS.init c).run ls).step l).run ls' := by
-  have hr := RInv.run c hc ls
+  have hr := RegInv.run c hc ls
   have hq : ((NS.init c).run ls).n.uqueue name = u.queue := uqueue_some hu
   refine ⟨?_, ?_, ?_, ?_, ?_, ?_⟩
   · intro u' hu'
@@ -661,7 +661,7 @@ theorem C08_right_socket_reopen (c : NetCfg) (hc : c.WF) (ls : List NLbl) (name 
     ∧ (∃ u', (((NS.init c).run ls).step (.uOpen name v4)).n.udp? name = some u'
           ∧ u'.fwd = some ((NS.init c).run ls).n.fwds.length ∧ u'.isOpen = true ∧ u'.bound = {} ∧ u'.queue = [])
     ∧ (∀ f, u.fwd = some f → (((NS.init c).run ls).step (.uOpen name v4)).n.fwdTarget f = none) := by
-  have hr := RInv.run c hc ls
+  have hr := RegInv.run c hc ls
   refine ⟨?_, fwdTarget_ge _ _ (Nat.le_refl _), ?_, ?_⟩
   · show (((NS.init c).run ls).n.udpOpen name v4).1.fwdTarget _ = _
     rw [udpOpen_fwdTarget]; simp [hu]
@@ -682,7 +682,7 @@ theorem C08_right_socket_kept (c : NetCfg) (hc : c.WF) (ls : List NLbl) (f : Nat
     ∧ (∀ dst, ((NS.init c).run ls).n.fresh dst = true →
         (((NS.init c).run ls).step (.uMove name dst)).n.fwdTarget f = some dst
         ∧ (((NS.init c).run ls).step (.uMove name dst)).n.udp? dst = some u) := by
-  have hr := RInv.run c hc ls
+  have hr := RegInv.run c hc ls
   refine ⟨fun l hl => fwd_kept_step hr hu hf l hl, fun dst hfr => ?_⟩
   have hg : (((NS.init c).run ls).n.fresh dst && (((NS.init c).run ls).n.udp? name).isSome) = true := by
     simp [hfr, hu]
